@@ -899,3 +899,45 @@ Q(name="e2_received_ack_of", props=["C05"], func=r"state\.rs:144:1[^>]*>::receiv
   functions=["StreamsState::received_ack_of"], pre=lambda c: "true", post=rao_post,
   bounds="every outcome of the stream lookup (hash map opaque), of Send::is_reset and of Send::ack, every acknowledged range: unacked_data is reduced by the range length exactly when the stream exists and is not reset, and is untouched otherwise",
   replay=("streams_received_ack_of_native", lambda m: [dict(reset=0), dict(reset=1)]))
+
+
+# ------------------------------------------------------------------ C01 / C11: end of stream is reported only once every byte up to the final size has been read
+def cn_pre(c):
+    return eq(c.inp("*_1.%d#discr" % c.field("connection/streams/recv.rs", "Chunks", "state"), I64), bv(0))     # ChunksState::Readable
+
+
+def cn_post(c, p):
+    st = p.p.state
+    RS = "**_1.%d@Readable.0.0.0" % c.field("connection/streams/recv.rs", "Chunks", "state")
+    f = lambda n: c.field("connection/streams/recv.rs", "Recv", n)
+    rstate = RS + ".%d" % f("state")
+    end = c.inp(RS + ".%d" % f("end"), BV64)
+    is_recv = eq(c.inp(rstate + "#discr", I64), bv(0))                       # RecvState::Recv { size }
+    size_some = eq(c.inp(rstate + "@Recv.0#discr", I64), bv(1))
+    size = c.inp(rstate + "@Recv.0@Some.0", BV64)
+    rd = lambda k, s: c.ex.read_key(st, k, s).t
+    ok = eq(rd("_0#discr", I64), bv(0))
+    none = eq(rd("_0@Ok.0#discr", I64), bv(0))
+    br = p.called(r"Assembler::bytes_read$")
+    freed = p.called(r"stream_recv_freed$")
+    got = p.called(r"Assembler::read$")
+    if len(got) != 1:
+        return "false"
+    chunk = eq(c.ex.read_key(st, got[0][2] + "#discr", I64).t, bv(1))
+    all_read = eq(br[0][2], end) if br else None
+    finished = and_(is_recv, size_some, eq(size, end), all_read) if all_read else "false"
+    # Ok(None) == "finished": only without a chunk, only in the Recv state with a known final size equal to the
+    # highest offset received AND to the number of bytes the application has consumed; the stream is then freed
+    conj = [imp(and_(ok, none), and_(not_(chunk), finished, "true" if freed else "false"))]
+    # and conversely a fully read stream is not reported as blocked
+    blocked = and_(not_(ok), eq(rd("_0@Err.0#discr", I64), bv(0)))
+    if all_read:
+        conj.append(imp(blocked, not_(finished)))
+    return and_(*conj)
+
+
+Q(name="e2_chunks_next_eos", props=["C01", "C11"], func=r"recv\.rs:256:1[^>]*>::next$",
+  pure=[r"Assembler::bytes_read$"], allowed_panics=r"attempt to compute|must not call|unreachable",
+  functions=["Chunks::next"], pre=cn_pre, post=cn_post,
+  bounds="every Recv state (final size known or not, any end / bytes_read), every outcome of Assembler::read (opaque; it may only touch the assembler): Ok(None) is returned exactly when no chunk is available, the final size is known, equals the highest received offset and equals the bytes consumed",
+  replay=("streams_chunks_next_eos_native", lambda m: [dict(gap=1, ordered=1), dict(gap=1, ordered=0), dict(gap=0, ordered=1), dict(gap=0, ordered=0)]))
